@@ -18,7 +18,8 @@ RULE = ("seeded generator of .sm texts: header tags in varying order with commen
         "1..3 charts over every chart type with a declared key count, measures of 4..48 and 192 rows, all symbols "
         "1 2 3 4 M L F K with holds/rolls spanning measures, comments between rows; ~8% texts without a #STOPS tag; "
         "~12% malformed/out-of-domain texts for the correspondence only (open heads, stray tails, 6-row measures, off-grid "
-        "tempo beats, wide rows, missing tags); a quarter of the texts are written to disk (their utf-8 bytes) and read through the "
+        "tempo beats, one wide row, every row of a chart wider / narrower than its type's declared key count or a type without "
+        "one, missing tags); a quarter of the texts are written to disk (their utf-8 bytes) and read through the "
         "file-level wrapper SMMapSet.read_file(path) instead of SMMapSet.read(text); non-trivial = at least 3 objects or 2 tempo changes or 2 charts; "
         "distinct by hash of the text")
 ASSUMPTIONS = [
